@@ -56,6 +56,14 @@ func c09Genesis() harness.Genesis {
 	v := vestingtypes.NewContinuousVestingAccountRaw(vestingtypes.NewBaseVestingAccount(authtypes.NewBaseAccountWithAddress(harness.Addr("V")), sdk.NewCoins(sdk.NewInt64Coin(harness.Denom, 30), sdk.NewInt64Coin(denomB, 8)), t0+1000), t0)
 	g.Accounts = append(g.Accounts, v)
 	g.ExtraBal = append(g.ExtraBal, banktypes.Balance{Address: harness.AddrS("V"), Coins: sdk.NewCoins(sdk.NewInt64Coin(harness.Denom, 33), sdk.NewInt64Coin(denomB, 8))})
+	// W: a sender whose delegation was larger than what was still vesting, so both delegated-vesting
+	// and delegated-free are tracked; its uc4e is all delegated, its second denomination is locked
+	wv := vestingtypes.NewContinuousVestingAccountRaw(vestingtypes.NewBaseVestingAccount(authtypes.NewBaseAccountWithAddress(harness.Addr("W")), sdk.NewCoins(sdk.NewInt64Coin(harness.Denom, 10), sdk.NewInt64Coin(denomB, 8)), t0+1000), t0)
+	wv.DelegatedVesting = coins(10)
+	wv.DelegatedFree = coins(3)
+	g.Accounts = append(g.Accounts, wv)
+	g.ExtraBal = append(g.ExtraBal, banktypes.Balance{Address: harness.AddrS("W"), Coins: sdk.NewCoins(sdk.NewInt64Coin(harness.Denom, 2), sdk.NewInt64Coin(denomB, 8))})
+	g.Delegations[harness.AddrS("W")] = sdk.NewInt(13)
 	g.Vesting = &vtypes.GenesisState{
 		Params:       vtypes.Params{Denom: harness.Denom},
 		VestingTypes: []vtypes.GenesisVestingType{{Name: "t5", LockupPeriod: 5, LockupPeriodUnit: "second", VestingPeriod: 10, VestingPeriodUnit: "second", Free: sdk.NewDecWithPrec(5, 1)}},
@@ -132,6 +140,18 @@ func c09Events() []Ev {
 				}})
 			}
 		}
+	}
+	// the over-delegated two-denomination sender W (its own account may only lose original vesting)
+	for _, tn := range []string{"absent", "base"} {
+		to := harness.Addr(map[string]string{"absent": "Tabs", "base": "Tbase"}[tn]).String()
+		evs = append(evs,
+			Ev{Name: "split(W-overdelegated,2ubb->" + tn + ")", Build: func(v View) (sdk.Msg, string) {
+				return vtypes.NewMsgSplitVesting(harness.AddrS("W"), to, sdk.NewCoins(sdk.NewInt64Coin(denomB, 2))), "W"
+			}},
+			Ev{Name: "move(W-overdelegated->" + tn + ")", Build: func(v View) (sdk.Msg, string) {
+				return vtypes.NewMsgMoveAvailableVesting(harness.AddrS("W"), to), "W"
+			}},
+		)
 	}
 	return evs
 }
